@@ -6,10 +6,12 @@ package main
 import (
 	"fmt"
 	"go/ast"
+	"go/build"
 	"go/constant"
 	"go/parser"
 	"go/token"
 	"go/types"
+	"math/big"
 	"os"
 	"path/filepath"
 	"sort"
@@ -43,9 +45,29 @@ var wants = []want{
 	{"leveldb/table", "tbl", []string{"blockTrailerLen", "footerLen", "magic", "blockTypeNoCompression", "blockTypeSnappyCompression"}},
 	{"leveldb/memdb", "mdb", []string{"tMaxHeight", "nKV", "nKey", "nVal", "nHeight", "nNext"}},
 	{"leveldb/opt", "opt", []string{"KiB", "MiB"}},
+	// C09 (options model, Gen/Options.v): the typed constants of leveldb/opt
+	{"leveldb/opt", "opt", []string{"DefaultCompression", "NoCompression", "SnappyCompression", "nCompression",
+		"StrictManifest", "StrictJournalChecksum", "StrictJournal", "StrictBlockChecksum", "StrictCompaction", "StrictReader",
+		"StrictRecovery", "StrictOverride", "StrictAll", "DefaultStrict", "NoStrict"}},
+	// the bounds of the clamping getters (repairs of the options relations, Props/C09O.v)
+	{"leveldb/opt", "opt", []string{"maxFilterBaseLg", "maxIteratorSamplingRate"}},
 	{"leveldb", "ldb", []string{"maxCachedNumber"}}, // C07: queue bound of session.refLoop
 	{"leveldb/cache", "cch", []string{"mInitialSize", "mOverflowThreshold", "mOverflowGrowThreshold",
 		"bucketUninitialized", "bucketInitialized", "bucketFrozen"}}, // C17: the node table of cache.go
+}
+
+// package-level VARIABLES whose initialiser is a constant expression (the Default* values of leveldb/opt are
+// declared with var): evaluated by go/types on the initialiser expression.  Files are selected with the
+// build constraints of the host platform (options_default.go vs options_darwin.go).  Integer values are
+// printed as N; float values v = m * 2^e (m odd) as three N definitions <name>_m, <name>_ep (e when e >= 0,
+// else 0) and <name>_en (-e when e < 0, else 0).
+var varwants = []want{
+	{"leveldb/opt", "opt", []string{"DefaultBlockCacheCapacity", "DefaultBlockRestartInterval", "DefaultBlockSize",
+		"DefaultCompactionExpandLimitFactor", "DefaultCompactionGPOverlapsFactor", "DefaultCompactionL0Trigger",
+		"DefaultCompactionSourceLimitFactor", "DefaultCompactionTableSize", "DefaultCompactionTableSizeMultiplier",
+		"DefaultCompactionTotalSize", "DefaultCompactionTotalSizeMultiplier", "DefaultCompressionType",
+		"DefaultIteratorSamplingRate", "DefaultWriteBuffer", "DefaultWriteL0PauseTrigger", "DefaultWriteL0SlowdownTrigger",
+		"DefaultFilterBaseLg", "DefaultMaxManifestFileSize", "DefaultOpenFilesCacheCapacity"}},
 }
 
 // function-local or literal constants: (dir, file, func, description, extractor)
@@ -159,6 +181,90 @@ func main() {
 			}
 		}
 	}
+	for _, w := range varwants {
+		dir := filepath.Join(root, w.dir)
+		pkgs, err := parser.ParseDir(fset, dir, func(fi os.FileInfo) bool {
+			if strings.HasSuffix(fi.Name(), "_test.go") || strings.HasPrefix(fi.Name(), "verif_") {
+				return false
+			}
+			ok, merr := build.Default.MatchFile(dir, fi.Name())
+			return merr == nil && ok
+		}, 0)
+		if err != nil {
+			fmt.Fprintln(os.Stderr, "constgen: parse", dir, err)
+			os.Exit(1)
+		}
+		var files []*ast.File
+		for name, p := range pkgs {
+			if strings.HasSuffix(name, "_test") || name == "main" {
+				continue
+			}
+			var fns []string
+			for fn := range p.Files {
+				fns = append(fns, fn)
+			}
+			sort.Strings(fns)
+			for _, fn := range fns {
+				files = append(files, p.Files[fn])
+			}
+		}
+		info := &types.Info{Types: map[ast.Expr]types.TypeAndValue{}}
+		conf := types.Config{Importer: imp, Error: func(error) {}, FakeImportC: true}
+		conf.Check(w.dir, fset, files, info)
+		inits := map[string]ast.Expr{}
+		for _, f := range files {
+			for _, d := range f.Decls {
+				gd, ok := d.(*ast.GenDecl)
+				if !ok || gd.Tok != token.VAR {
+					continue
+				}
+				for _, sp := range gd.Specs {
+					vs, ok := sp.(*ast.ValueSpec)
+					if !ok || len(vs.Names) != len(vs.Values) {
+						continue
+					}
+					for i, nm := range vs.Names {
+						inits[nm.Name] = vs.Values[i]
+					}
+				}
+			}
+		}
+		for _, n := range w.names {
+			e, ok := inits[n]
+			var val constant.Value
+			if ok {
+				val = info.Types[e].Value
+			}
+			if val == nil || val.Kind() == constant.Unknown {
+				fmt.Fprintf(os.Stderr, "constgen: variable %s.%s not found or its initialiser is not a constant expression\n", w.dir, n)
+				out = append(out, fmt.Sprintf("(* MISSING: %s.%s *)", w.dir, n))
+				missing++
+				continue
+			}
+			switch val.Kind() {
+			case constant.Int:
+				if constant.Sign(val) < 0 {
+					out = append(out, fmt.Sprintf("(* UNSUPPORTED negative value for %s.%s *)", w.dir, n))
+					missing++
+					continue
+				}
+				out = append(out, fmt.Sprintf("Definition %s : N := %s.", coqName(w.prefix, n), val.ExactString()))
+			case constant.Float:
+				m, ep, en, ok := dyadic(val)
+				if !ok {
+					out = append(out, fmt.Sprintf("(* UNSUPPORTED float value for %s.%s *)", w.dir, n))
+					missing++
+					continue
+				}
+				out = append(out, fmt.Sprintf("Definition %s_m : N := %s.", coqName(w.prefix, n), m))
+				out = append(out, fmt.Sprintf("Definition %s_ep : N := %d.", coqName(w.prefix, n), ep))
+				out = append(out, fmt.Sprintf("Definition %s_en : N := %d.", coqName(w.prefix, n), en))
+			default:
+				out = append(out, fmt.Sprintf("(* UNSUPPORTED kind for %s.%s *)", w.dir, n))
+				missing++
+			}
+		}
+	}
 	for _, l := range lits {
 		v, ok := findLit(fset, filepath.Join(root, l.dir, l.file), l.fn, l.nth, l.min)
 		if !ok {
@@ -173,6 +279,31 @@ func main() {
 	if missing > 0 {
 		os.Exit(3)
 	}
+}
+
+// dyadic writes the float64 value of a positive constant as m * 2^e with m odd: returns m, max(e,0), max(-e,0).
+func dyadic(val constant.Value) (string, int, int, bool) {
+	f, _ := constant.Float64Val(val)
+	if !(f > 0) || f > 1e300 {
+		return "", 0, 0, false
+	}
+	bf := new(big.Float).SetFloat64(f)
+	mant := new(big.Float)
+	e := bf.MantExp(mant) // f = mant * 2^e, 0.5 <= mant < 1
+	mant.SetMantExp(mant, 53)
+	e -= 53
+	mi, acc := mant.Int(nil)
+	if acc != big.Exact || mi.Sign() <= 0 {
+		return "", 0, 0, false
+	}
+	for mi.Bit(0) == 0 {
+		mi.Rsh(mi, 1)
+		e++
+	}
+	if e >= 0 {
+		return mi.String(), e, 0, true
+	}
+	return mi.String(), 0, -e, true
 }
 
 func findLit(fset *token.FileSet, file, fn string, nth int, min uint64) (uint64, bool) {
